@@ -37,6 +37,7 @@ CATALOGUE = [
     # data faults
     "fill_nonscalar", "fill_wrong_length", "fill_str_weight", "fill_n_wrong_rank", "fill_n_wrong_columns",
     "fill_n_weights_wrong_length", "fill_n_weights_str", "fill_n_values_str", "fill_n_grow_then_bad_weights",
+    "fill_weight_too_large_for_dtype", "fill_n_weight_too_large_for_dtype",
     # dtype faults
     "dtype_complex", "dtype_str", "dtype_object", "dtype_lossy_int", "dtype_too_narrow", "dtype_setter_lossy",
     # axis faults
@@ -291,6 +292,15 @@ def apply_invalid(h, kind, arg):
         h.fill([0.5] * (nd + 1) if arg % 2 else [0.5] * (nd - 1))
     elif kind == "fill_str_weight":
         h.fill(0.5 if nd == 1 else [0.5] * nd, "heavy")
+    elif kind == "fill_weight_too_large_for_dtype":
+        if np.dtype(h.dtype).kind != "i":
+            return NotImplemented
+        h.fill(lo_inside(h), 10 ** 10)  # its square does not fit int64
+    elif kind == "fill_n_weight_too_large_for_dtype":
+        if np.dtype(h.dtype).kind != "i":
+            return NotImplemented
+        v = lo_inside(h)
+        h.fill_n([v] if nd == 1 else [v], weights=[10 ** 19 * 10])  # not representable as int64
     elif kind == "fill_n_wrong_rank":
         if nd == 1:
             return NotImplemented  # documented: a 1-D histogram flattens any input
@@ -408,6 +418,11 @@ def apply_invalid(h, kind, arg):
     else:
         return NotImplemented
     return None
+
+
+def lo_inside(h):
+    v = [float(np.asarray(b.bins)[0, 0]) + 1e-3 for b in h.binnings]
+    return v[0] if h.ndim == 1 else v
 
 
 # ----------------------------------------------------------------------------
